@@ -405,6 +405,8 @@ Started(o, o2) == { i \in WIdx(o2) : o2.w[i].st \in {"starting", "active"} /\
 C02_stays(g, o, ln, o2) ==
    /\ \A i \in Started(o, o2) : ~o2.w[i].od =>
         /\ o2.slot \in StartSlots
+        \* ... taken by a request that is one of those (a `set` that gets hold of the reload slot is not)
+        /\ g.op.cmd \in {"start", "restart", "reload", "add", "reloadconfig", "internal"}
         /\ (o2.slot \in WatcherSlots /\ g.op.hasname /\ ~g.op.pattern => g.op.lname = o2.w[i].ln)
    /\ (ln.k = "spawn" => \A j \in WIdx(o2) : o2.w[j].ln = ln.x => o2.w[j].st # "stopped")
 
@@ -725,7 +727,7 @@ Clauses(g, o, ln, o2, g2) ==
     C01_period |-> C01_period(g, o2, ln), C01_set |-> C01_set(g, ln, o2),
     C01_fresh |-> C01_fresh(g, o, o2),
     C02_complete |-> C02_complete(g2, o, o2), C02_opdone |-> C02_opdone(g, o, o2),
-    C02_stays |-> C02_stays(g, o, ln, o2),
+    C02_stays |-> C02_stays(g2, o, ln, o2),
     C03_first |-> C03_first(g, o, ln), C03_notearly |-> C03_notearly(g, ln), C03_notdead |-> C03_notdead(g, ln),
     C03_prompt |-> C03_prompt(g, o, ln), C03_kids |-> C03_kids(g, g2, o, o2),
     C03_stopsig |-> C03_stopsig(g, g2, o, o2),
